@@ -17,3 +17,4 @@
 (declare-fun node_argstatus (Iface) String)
 (declare-fun type_default (Iface) String)
 (declare-fun type_hasdefault (Iface) Bool)
+(declare-fun node_module (Iface) String) ; schema.Node.Module()
